@@ -3,8 +3,11 @@
    seq.rs  StripedSequence::new(matrix, length)   accepts ANY matrix with rows * C >= length: the
                                                   rows may be more than ceil(length / C) and the cells
                                                   of linear index >= length hold whatever the matrix held
-           StripedSequence::sample(rng, bg, len)  ceil(len / C) rows, EVERY cell drawn from the background
-                                                  (never the wildcard, unless it has a frequency)
+           StripedSequence::sample(rng, bg, len)  ceil(len / C) rows; up to /repo a1b1f91 EVERY cell was
+                                                  drawn from the background (padding never the wildcard);
+                                                  since the fix 740d563 the cells of linear index >= len
+                                                  are overwritten with the wildcard, i.e. the state is
+                                                  [Striped] (a special case of [Padded])
 
    Such a state followed by configure / configure_wrap is what the scoring code may be given.
    With R = matrix().rows() - wrap() (the divisor used by Index and by score_into) the cell (r, c)
